@@ -59,3 +59,50 @@ fn inflated_section_offset_is_rejected_without_a_panic() {
     let r = std::panic::catch_unwind(|| cas_object::CasObjectInfoV1::deserialize_only_boundaries_section(&mut Cursor::new(&bytes)).is_err());
     assert!(matches!(r, Ok(true)), "C08 violated: an inflated boundary_section_offset_from_end must give an error, not a panic: {r:?}");
 }
+
+/// serialized legacy (V0 footer) xorb and the byte position of the footer's num_chunks field
+fn v0_xorb(num_chunks: u32) -> (merklehash::MerkleHash, Vec<u8>, usize) {
+    use std::io::{Seek, SeekFrom};
+
+    use cas_object::test_utils::{build_cas_object, ChunkSize};
+    use cas_object::{CasObject, CasObjectInfoV0, CompressionScheme};
+    let (c, _cas_data, raw_data, raw_chunk_boundaries) = build_cas_object(num_chunks, ChunkSize::Fixed(500), CompressionScheme::None);
+    let mut buf: Cursor<Vec<u8>> = Cursor::new(Vec::new());
+    CasObject::serialize(&mut buf, &c.info.cashash, &raw_data, &raw_chunk_boundaries, Some(CompressionScheme::None)).unwrap();
+    let mut v0 = CasObjectInfoV0::default();
+    v0.cashash = c.info.cashash;
+    v0.num_chunks = c.info.num_chunks;
+    v0.chunk_boundary_offsets = c.info.chunk_boundary_offsets.clone();
+    v0.chunk_hashes = c.info.chunk_hashes.clone();
+    let mut bytes = buf.into_inner();
+    let contents_len = c.get_contents_length().unwrap() as usize;
+    bytes.resize(contents_len, 0);
+    let mut buf = Cursor::new(bytes);
+    buf.seek(SeekFrom::End(0)).unwrap();
+    #[allow(deprecated)]
+    let info_length = v0.serialize(&mut buf).unwrap() as u32;
+    let mut bytes = buf.into_inner();
+    bytes.extend_from_slice(&info_length.to_le_bytes());
+    (c.info.cashash, bytes, contents_len + 7 + 1 + 32)
+}
+
+#[test]
+fn inflated_chunk_count_in_a_legacy_footer_is_rejected_without_a_huge_allocation() {
+    let (hash, xorb, pos) = v0_xorb(3);
+    assert!(cas_object::CasObject::validate_cas_object(&mut Cursor::new(xorb.clone()), &hash).unwrap().is_some(), "test setup: genuine V0 xorb validates");
+    for (what, run) in [("seekable validator", 0), ("CasObject::deserialize", 1)] {
+        let mut forged = xorb.clone();
+        assert_eq!(&forged[pos..pos + 4], &3u32.to_le_bytes(), "test setup: num_chunks position");
+        forged[pos + 3] = 0x04; // 3 -> 0x04000003 declared chunks
+        let n = forged.len();
+        MAX_REQ.store(0, Ordering::Relaxed);
+        let accepted = if run == 0 {
+            matches!(cas_object::CasObject::validate_cas_object(&mut Cursor::new(forged), &hash), Ok(Some(_)))
+        } else {
+            cas_object::CasObject::deserialize(&mut Cursor::new(forged)).is_ok()
+        };
+        let peak = MAX_REQ.load(Ordering::Relaxed);
+        assert!(!accepted, "C08 violated: {what} accepts a legacy footer with an inflated chunk count");
+        assert!(peak <= 1 << 20, "C08 violated: {what}: a {n}-byte object with a legacy footer made a single allocation request of {peak} bytes");
+    }
+}
